@@ -36,6 +36,8 @@ Lemma trunc_stops : forall n m o, stops m (trunc_obj n o) = stops m o.
 Proof. intros; unfold stops; rewrite trunc_oid; reflexivity. Qed.
 Lemma trunc_cand : forall n path o, cand path (trunc_obj n o) = cand path o.
 Proof. intros n path [h ws a|h ks a]; reflexivity. Qed.
+Lemma trunc_live_cand : forall n path o, live_cand path (trunc_obj n o) = live_cand path o.
+Proof. intros; unfold live_cand; rewrite trunc_hdr, trunc_cand; reflexivity. Qed.
 Lemma trunc_okids : forall n o, okids (trunc_obj n o) = trunc_objs n (okids o).
 Proof. intros n [h ws a|h ks a]; [reflexivity|]. rewrite trunc_obj_scp. reflexivity. Qed.
 
@@ -94,7 +96,7 @@ Proof.
   - cbn [scan]. rewrite trunc_oid, trunc_stops, Hs0, andb_false_r.
     destruct (stops stop o); [reflexivity|].
     rewrite IH. destruct (scan stop path r) as [cs| |]; cbn [bind]; try reflexivity.
-    rewrite trunc_cand. destruct (cand path o); reflexivity.
+    rewrite trunc_live_cand. destruct (live_cand path o); reflexivity.
 Qed.
 
 Section LexTrunc.
